@@ -343,7 +343,8 @@ pub fn run_layer_case(c: &LayerCase, p: &mut PropReport) {
         }
         Ok(Some(r)) => r,
     };
-    let rejected_connect = matches!(&result, Err(hyperdriver::client::Error::InvalidMethod(m)) if *m == Method::CONNECT);
+    // "CONNECT is rejected with an error" on an HTTP/2 connection: which error is the library's choice
+    let rejected_connect = result.is_err() && c.conn_h2 && input.method() == Method::CONNECT;
     if result.is_err() && !rejected_connect {
         p.violation("layer-stack-unexpected-error", format!("{:?} for {}", result.err(), c.to_json()), replay);
         return;
